@@ -1,6 +1,8 @@
 """C01 - J1939-21 transport delivers every accepted message intact, exactly once (structural clauses)."""
 from rules import transport as T
 from rules import session as S
+from rules import flow as F
+from rules import dm14 as D
 
 
 def run(ctx):
@@ -18,6 +20,14 @@ def run(ctx):
     S.deliver_guard(ctx, L)
     ctx.rule("R-ORDER-SEND", "state advanced before RTS / connection-mode DT is handed to the bus", floor=2)
     S.order_send(ctx, L)
+    ctx.rule("R-CTS-BORDER", "responder window bookkeeping is mutually consistent (no stall for unequal windows)", floor=2)
+    F.cts_border(ctx, L)
+    ctx.rule("R-GRANT-MIN", "grants and the announced window are min-closures over own maximum, peer limit, remaining", floor=3)
+    F.grant_min(ctx, L)
+    ctx.rule("R-WINDOW-AFFINE", "packets sent per CTS = granted count", floor=2)
+    F.window_affine(ctx, L)
+    ctx.rule("R-FORWARD-NAMES", "ECU.send_pgn / notify forward their parameters by name", floor=2)
+    D.forward_names(ctx, classes=("ElectronicControlUnit",))
     ctx.rule("R-DEST-CLASS", "BAM iff PS==255 or PDU2, RTS/CTS to PS otherwise; single frame iff len<=8", floor=3)
     T.dest_class(ctx, L)
     ctx.rule("R-REFUSE", "send_pgn returns False only when the pair is busy, without effects", floor=1)
